@@ -1,4 +1,5 @@
 PROP = dict(
+    thorough_seeds=48,
     module="M3d.Props.C06",
     corr=dict(quick=300, thorough=2500),
     gen=["Kernels"],
